@@ -417,6 +417,8 @@ func ruleC02(w *World, r *Report) {
 	ruleC02SEID(w, r, handlers, acceptedConst)
 	ruleC02Accepted(w, r, handlers, acceptedConst)
 	ruleC02NonZero(w, r)
+	ruleDoneKeyIsStoredKey(w, r, "C02", "R02.10")
+	ruleOnlyReadDeadline(w, r, "C02", "R02.11")
 	// R02.9: a session response is addressed to the CP SEID of the session the UP SEID names — two live
 	// sessions never share a UP SEID (the uniqueness rules of C07 R07.5, re-filed)
 	r.withRule("R02.9", func() { ruleC07SEID(w, r) })
